@@ -49,8 +49,11 @@ pub fn handle_xadd(storage: &Arc<StorageEngine>, db: usize, parts: &[RespFrame])
         // Auto-generate ID
         storage.xadd(db, key, fields)?
     } else {
-        // Parse specific ID using optimized parsing
-        let id_str = unsafe { std::str::from_utf8_unchecked(id_bytes) };
+        // Parse specific ID (bytes that are not valid UTF-8 do not spell an ID)
+        let id_str = match std::str::from_utf8(id_bytes) {
+            Ok(s) => s,
+            Err(_) => return Ok(RespFrame::error("ERR Invalid stream ID specified as stream command argument")),
+        };
         
         let id = match StreamId::from_string(id_str) {
             Some(id) => id,
